@@ -65,6 +65,27 @@ def drv_mw(s):
     return (parts1, merged, [tup(p) for p in b2.fields[0].value])
 
 
+def drv_mw_fields(s):
+    """all four middlewares with a non-default name_fields: the name sits in 'bookauthor', 'author' is plain text"""
+    nf = ("bookauthor",)
+    mk_lib = lambda v: Library([Entry("article", "k", [Field("author", "x and y"), Field("bookauthor", v)])])
+    split = lambda lib: N.SplitNameParts(True, nf).transform(N.SeparateCoAuthors(True, nf).transform(lib))
+    lib = split(mk_lib(s))
+    b = lib.blocks[0]
+    if not isinstance(b, Entry):
+        return None
+    if b.fields[0].value != "x and y":
+        return ("untouched-field-changed", b.fields[0].value, None)
+    parts1 = [tup(p) for p in b.fields[1].value]
+    lib = N.MergeCoAuthors(True, nf).transform(N.MergeNameParts("last", True, nf).transform(lib))
+    merged = lib.blocks[0].fields[1].value
+    lib2 = split(mk_lib(merged))
+    b2 = lib2.blocks[0]
+    if not isinstance(b2, Entry):
+        return (parts1, merged, None)
+    return (parts1, merged, [tup(p) for p in b2.fields[1].value])
+
+
 def drv_stack(doc):
     lib = bibtexparser.parse_string(doc, append_middleware=[N.SeparateCoAuthors(True), N.SplitNameParts(True)])
     if len(lib.blocks) != 1 or not isinstance(lib.blocks[0], Entry):
@@ -73,7 +94,10 @@ def drv_stack(doc):
     if len(e.fields) != 1 or not isinstance(e.fields[0].value, list):
         return None
     parts1 = [tup(p) for p in e.fields[0].value]
-    text = bibtexparser.write_string(lib, prepend_middleware=[N.MergeNameParts("last", False), N.MergeCoAuthors(False)])
+    inverse = [N.MergeNameParts("last", False), N.MergeCoAuthors(False)]
+    bibtexparser.write_string(lib, prepend_middleware=inverse)
+    # the document that counts is the one written by a SECOND use of the same (copy-mode) instances on the same library
+    text = bibtexparser.write_string(lib, prepend_middleware=inverse)
     lib2 = bibtexparser.parse_string(text, append_middleware=[N.SeparateCoAuthors(True), N.SplitNameParts(True)])
     if len(lib2.blocks) != 1 or not isinstance(lib2.blocks[0], Entry) or len(lib2.blocks[0].fields) != 1 \
             or not isinstance(lib2.blocks[0].fields[0].value, list):
@@ -119,6 +143,8 @@ def mk_replay(drv, wrap):
         try:
             r = drv(wrap(inp))
         except Exception as e:  # noqa
+            from pysym.harness import guard_repo_exception
+            guard_repo_exception(e)
             return {"input": inp, "observed": f"raised {type(e).__name__}: {e}", "expected": "round trip"}
         if r is None:
             return None
@@ -211,6 +237,12 @@ def task_words(seps, via):
     return run_task(drv_stack, s, eng, wrap, mk_replay(drv_stack, lambda x: PRE + x + POST), False)
 
 
+def task_mw_fields(L):
+    eng = Engine()
+    s = sym(eng, L, SIGMA2, "")
+    return run_task(drv_mw_fields, s, eng, lambda x: x, mk_replay(drv_mw_fields, lambda x: x), False)
+
+
 PRE, POST = "@a{k, author = {", "}}"
 
 
@@ -250,6 +282,9 @@ def main():
                 chk.add_task(f"stack-L{L}-{a!r}", task_stack, L=L, prefix=a)
         else:
             chk.add_task(f"stack-L{L}", task_stack, L=L)
+    chk.bounds["non-default name_fields"] = f"the four middlewares built with name_fields=('bookauthor',): names of length 1..4 over {SIGMA2!r} in that field, 'author' holding plain text"
+    for L in (4, 3, 2, 1):
+        chk.add_task(f"fields-L{L}", task_mw_fields, L=L)
     chk.bounds["whole stack, protected line ends"] = "NAME = '{' + 1..3 characters over CR, LF, blank, 'A' + '}' (alone, and followed by ' and b A')"
     for n in (3, 2, 1):
         for tail in (False, True):
